@@ -108,6 +108,8 @@ class Interp:
             raise Unsupported(f"CLASSSEL: attribute `{d}` not interpretable", rule="CLASSSEL")
         if isinstance(n, ast.Compare) and len(n.ops) == 1:
             l, r, op = self.ev(n.left), self.ev(n.comparators[0]), n.ops[0]
+            if (l is TOP or r is TOP) and isinstance(op, (ast.Is, ast.IsNot)) and (l is None or r is None):
+                return isinstance(op, ast.IsNot)  # a measured number is not None
             if l is TOP or r is TOP:
                 raise Unsupported(f"CLASSSEL: test `{U(n)}` depends on a value that is not part of the request", rule="CLASSSEL")
             if isinstance(op, ast.Is):
@@ -233,6 +235,8 @@ class Interp:
                 self.env[s.target.id] = self.arith(s.op, self.env[s.target.id], self.ev(s.value), s)
             elif isinstance(s, ast.Pass):
                 continue
+            elif isinstance(s, ast.Expr) and isinstance(s.value, ast.Call) and (U(s.value.func).startswith(("_logger.", "logger.", "logging.", "warnings.warn")) or U(s.value.func) == "print"):
+                continue  # diagnostics do not take part in the selection
             elif isinstance(s, ast.Raise):
                 exc = s.exc
                 raise Raised(dotted(exc.func) if isinstance(exc, ast.Call) else dotted(exc))
@@ -288,6 +292,24 @@ def check_classsel(ctx: Ctx):
     rf = m.func(f"{IMG}.refine_droplet")
     prom = [s for s in rf.node.body if isinstance(s, ast.If) and "isinstance" in U(s.test) and "DiffuseDroplet" in U(s.test)]
     wdef = [s for s in rf.node.body if isinstance(s, ast.If) and "interface_width" in U(s.test) and "None" in U(s.test)]
+    CFG_NAMES = {"modes", "interface_width", "dim"}
+    prefix_cfg = []
+
+    def _stores(st_):
+        return {x.id for x in ast.walk(st_) if isinstance(x, ast.Name) and isinstance(x.ctx, ast.Store)}
+
+    def _collect(block):
+        for s_ in block:
+            if s_ is lp or any(x is lp for x in ast.walk(s_)):
+                break
+            if s_ in pre or s_ in dim_def:
+                continue
+            if isinstance(s_, (ast.FunctionDef, ast.ClassDef, ast.Import, ast.ImportFrom)):
+                continue
+            if _stores(s_) & CFG_NAMES:
+                prefix_cfg.append(s_)
+
+    _collect(fi.node.body)
     n_cfg, bad = 0, []
     samples = []
     for (family, dim), modes, width, refine in itertools.product(FAMILIES, (0, 2, 3), (None, 0.0, 1.5), (False, True)):
@@ -302,6 +324,10 @@ def check_classsel(ctx: Ctx):
         try:
             it = Interp(ctx, fi, env)
             it.run(pre)
+            # statements between the entry and the candidate loop that rebind a configuration variable (modes,
+            # interface_width, dim) take part in the selection: `modes = 0 on symmetric grids`, `width = max(width, dx)` …
+            for s_pre in prefix_cfg:
+                it.run([s_pre])
             it.run(lp.body)
             if len(it.out) != 1:
                 got = ("stores", len(it.out))
@@ -320,6 +346,8 @@ def check_classsel(ctx: Ctx):
                     if n_amp is TOP:
                         n_amp = "<data-dependent>"
                     w = d.fields.get("interface_width")
+                    if w is TOP:
+                        w = "<data-dependent>"
                     got = (d.cls, n_amp, w)
                     # constructible: fields ⊆ constructor params of the class
                     fields, params, stored, init = io.class_layout(ctx, d.cls)
